@@ -152,6 +152,9 @@ func (l *Ledger) SaveAccountMeta(addr string, md map[string]string, at time.Time
 		for k, v := range md {
 			a.Metadata[k] = v
 		}
+		if !at.IsZero() && at.Before(a.FirstUsage) { // a metadata write is a usage event too
+			a.FirstUsage = at
+		}
 	} else {
 		l.touch(addr, at, defaults, md)
 	}
